@@ -38,3 +38,20 @@ Example C16_example :
   join_entry l "k2" = Some "L1" /\ join_entry r "k1" = None /\ dup_keys [("a", "k"); ("b", "k")] = true.
 Proof. vm_compute. repeat split. Qed.
 Print Assumptions C16_example.
+
+(* BEGIN PINNED FINGERPRINTS (tools/pin_shapes.py) *)
+(* The functions and classes of /repo that hand-written parts of the model mirror (Model/VM.v, NameLevel.v, Loopback.v) and the glue around the modelled core
+   this property is anchored in: the fingerprints (sha256 of the normalised source, comments and docstrings dropped) are regenerated on every run; an edit of one
+   of them re-opens this property even if no sampled case shows a difference.  Rewritten by tools/pin_shapes.py on a tree on which every check passes. *)
+From Connectome Require GlueJoinGen.
+Theorem C16_mirrored_functions_are_the_pinned_ones :
+  GlueJoinGen.shape_class_Join = "c2f4cf07b56e234c" /\
+  GlueJoinGen.shape_class_JoinContainer = "dc09c49ad7a5ba2d" /\
+  GlueJoinGen.shape_class_SwitchBranch = "202ea87a164ad799" /\
+  GlueJoinGen.shape_class_SwitchMissing = "09b9278b99ce6ff8" /\
+  GlueJoinGen.shape_priv_maybe_to_hash_id = "80d34b70d13b1b9d" /\
+  GlueJoinGen.shape_to_hash_id = "501cde71d807429e" /\
+  GlueJoinGen.shape_priv_chain_edges = "f009adada3e3a857".
+Proof. repeat split; reflexivity. Qed.
+Print Assumptions C16_mirrored_functions_are_the_pinned_ones.
+(* END PINNED FINGERPRINTS *)
